@@ -86,15 +86,19 @@ def comps(sh):
     return list(itertools.product(*[range(d) for d in sh]))
 
 
-def build_case(name, m, form, opts):
-    """returns coqgen.Case or None (skip reason string)"""
+def build_case(name, m, form, opts, out=None, pres=None):
+    """returns coqgen.Case or None (skip reason string).  `pres`: the preprocess_form integrands whose SUM
+    the output integrand must equal (times the scaling factor)"""
     itype = form.integrals()[0].integral_type()
-    fd = compute_form_data(form, **opts)
-    outs = [itg for idata in fd.integral_data for itg in idata.integrals]
-    if len(outs) != 1:
-        return f"expected one output integral, got {len(outs)}"
-    out = outs[0].integrand()
-    pre = preprocess_form(form, False).integrals()[0].integrand()
+    if out is None:
+        fd = compute_form_data(form, **opts)
+        outs = [itg for idata in fd.integral_data for itg in idata.integrals]
+        if len(outs) != 1:
+            return f"expected one output integral, got {len(outs)}"
+        out = outs[0].integrand()
+    if pres is None:
+        pres = [preprocess_form(form, False).integrals()[0].integrand()]
+    pre = pres[0]
     scale = ufl.as_ufl(compute_integrand_scaling_factor(form.integrals()[0])[0]) \
         if opts.get("do_apply_integral_scaling") else ufl.as_ufl(1)
     pull = bool(opts.get("do_apply_function_pullbacks"))
@@ -103,7 +107,7 @@ def build_case(name, m, form, opts):
     hyps, named = [], {}
     nz = []
     done = set()
-    todo = list(terminals(pre)) + list(terminals(scale)) + [C.JacobianInverse(m)]   # K enters through the chain rule
+    todo = [t for p_ in pres for t in terminals(p_)] + list(terminals(scale)) + [C.JacobianInverse(m)]  # K: chain rule
     nh = 0
     while todo:
         t = todo.pop()
@@ -136,14 +140,72 @@ def build_case(name, m, form, opts):
     tac = ("norm_goal; repeat rewrite (Hchain s); "
            + (f"repeat (progress (rewrite {rew})); " if nrew else "")
            + "finish")
-    spec = f"mul (DEN s rho {name}_SC []) (DEN s rho {name}_PRE [])"
+    total = None
+    for k, p_ in enumerate(pres):
+        named[f"PRE{k}"] = p_
+        t_ = f"(DEN s rho {name}_PRE{k} [])"
+        total = t_ if total is None else f"(add {total} {t_})"
+    spec = f"mul (DEN s rho {name}_SC []) {total}"
     named["SC"] = scale
-    named["PRE"] = pre
     case = coqgen.Case(name, out=out, spec=spec, hyps=hyps, named=named, ctx=ctx, comps=[()], tactic=tac,
                        refvalue_terminal=True,
                        note={"integral_type": itype, "options": [k for k, v in opts.items() if v]})
     case.pre, case.scale, case.form = pre, scale, form
     return case
+
+
+def multi_zoo(cell, g):
+    """forms with several integrals, including IDENTICAL integrands reaching one subdomain more than once"""
+    m = uflgen.mesh(cell, g)
+    f = uflgen.coef((), cell, g)
+    h = uflgen.coef((), cell, g)
+    v = uflgen.arg(0, (), cell, g)
+    dx = ufl.dx(m)
+    return m, [
+        ("dup_ev_1", f * v * dx + f * v * dx(1)),
+        ("dup_tuple", f * v * dx((1, 2)) + f * v * dx(2) + h * v * dx),
+        ("two_ids", f * v * dx(1) + h * v * dx(2) + f * h * v * dx(1)),
+        ("ev_only_twice", f * v * dx + f * v * dx),
+    ]
+
+
+def multi_cases(run, cell, g):
+    """one case per OUTPUT integral: its integrand = scale * sum of the input integrands that apply there"""
+    m, forms = multi_zoo(cell, g)
+    cases, skipped = [], []
+    osets = [o for o in option_sets(run.tier)
+             if (o["do_apply_function_pullbacks"], o["do_apply_geometry_lowering"], o["do_cancel_jacobian_products"],
+                 o["do_remove_component_tensors"]) in ((False, False, False, False), (True, True, False, False))]
+    for (fname, form), o in itertools.product(forms, osets):
+        tag = "".join("1" if o[k] else "0" for k in OPTS)
+        fd = compute_form_data(form, **o)
+        pre_integrals = preprocess_form(form, False).integrals()
+        for idata in fd.integral_data:
+            sid = idata.subdomain_id
+            for n_, itg in enumerate(idata.integrals):
+                applies = []
+                for pi in pre_integrals:
+                    ids = pi.subdomain_id()
+                    ids = ids if isinstance(ids, tuple) else (ids,)
+                    for one in ids:
+                        # Form normalises ids to tuples; 'everywhere' applies to every declared id and to 'otherwise'
+                        if one == "everywhere" or (sid != ("otherwise",) and sid != "otherwise" and
+                                                  (one == sid or (isinstance(sid, tuple) and one in sid))):
+                            applies.append(pi.integrand())
+                if not applies:
+                    skipped.append((fname, str(sid), "no input integral applies"))
+                    continue
+                sidt = "".join(ch if ch.isalnum() else "_" for ch in str(sid))
+                name = f"e2em_{cell[:3]}{g}_{fname}_{tag}_s{sidt}_{n_}"
+                c = build_case(name, m, form, o, out=itg.integrand(), pres=applies)
+                if isinstance(c, str):
+                    skipped.append((name, c))
+                    continue
+                c.note["subdomain_id"] = str(sid)
+                c.note["inputs_applying"] = len(applies)
+                cases.append(c)
+                run.count_case(name)
+    return cases, skipped
 
 
 def header(ctx_probe_kinv, td, g):
@@ -189,6 +251,10 @@ def run_end_to_end(run):
                 continue
             cases.append(c)
             run.count_case(name)
+        if (cell, g) == ("triangle", 2):
+            mc, msk = multi_cases(run, cell, g)
+            cases += mc
+            skipped += msk
         if cases:
             run.sample({"case": cases[len(cases) // 2].name, "options": cases[len(cases) // 2].note,
                         "preprocessed_integrand": str(cases[len(cases) // 2].out)[:300]})
